@@ -97,7 +97,7 @@ func vStubCwnd(c *congestion.CubicSendAlgorithm) uint32 {
 	vAssume(w <= 4096)
 	return w
 }
-func vStubCubicEvent(c *congestion.CubicSendAlgorithm) {}
+func vStubCubicEvent(c *congestion.CubicSendAlgorithm) uint32 { return 0 }
 func vStubBackoff(d time.Duration, base float64, n float64) time.Duration {
 	return d
 }
